@@ -150,6 +150,8 @@ func checkC04(p *Program, r *Result) {
 	r.rule("C04.d", "every read option reaches the iterator", 6)
 	r.rule("C04.e", "topic filter is the same in both iterators", 2)
 	r.rule("C04.f", "cached Info is read-only", 1)
+	r.rule("C04.t", "the sequential path expands every chunk regardless of its time range", 1)
+	checkChunkTimesUnused(p, r, "C04.t")
 	r.rule("C04.n", "a chunk index without message indexes is never dropped by the topic filter", 0)
 	checkKeepWithoutMessageIndexes(p, r, "C04.n")
 	r.rule("C04.g", "Finalize only copies deprecated companions into window fields", 1)
